@@ -68,7 +68,7 @@ class C09(Prop):
             "magnification 1..4 realised by (spotsize, speed, scantime) triples incl. binary-inexact values whose float quotient is the "
             "integer, warm-up 0..5 samples given in seconds (exact, fractional, exact rounding tie), 1..4 offsets with denominators "
             "1..6, first offset zero or not, 1..3 elements, every sample a unique integer token. Non-trivial = accepted and reconstructed; "
-            "distinct by canonical case hash")
+            "rejected stacks still exercise the validity check, layer reads and the round trip; distinct by canonical case hash")
     trusted = [
         "'integer magnification' means spotsize/(speed*scantime) evaluates to an integer in float64 (DESIGN 6a); the model is given that value",
         "np.round(seconds/scantime) equals round-half-even of the exact quotient of the float values unless that quotient is within 1e-9 of a "
@@ -83,6 +83,22 @@ class C09(Prop):
     ]
 
     def generate(self, rng, tier):
+        if rng.random() < 0.04:
+            # DESIGN 6a: triples whose float quotient is just off an integer are outside "integer magnification";
+            # they are run and only reported (feature counts), never compared
+            case = gen_srr(rng, max_vox=4000, force_valid=True)
+            M = case["mag"]
+            for _ in range(50):
+                speed, scantime = rng.choice([3.0, 0.3, 1.7, 33.3, 7.3]), rng.choice([0.1, 0.3, 0.007, 1.3])
+                spot = M * rng.choice([0.3, 0.51, 2.21, 43.29, 0.021]) if rng.random() < 0.5 else float(np.nextafter(M * speed * scantime, rng.choice([0.0, 1e9])))
+                q = spot / (speed * scantime)
+                if q != float(M) and abs(q - M) < 1e-9:
+                    case.update({"spotsize": spot, "speed": speed, "scantime": scantime, "near": True, "nel": 1, "element": 0,
+                                 "warmup": 0.0, "wmode": "exact"})
+                    w = 0
+                    (l0, _), (l1, _) = case["shapes"]
+                    case["shapes"] = [[l0, l1 * M + 1], [l1, l0 * M + 2]]
+                    return case
         case = gen_srr(rng, max_vox=9000 if tier == "quick" else 16000, force_valid=False)
         case["nel"] = rng.choice([1, 1, 2, 3])
         case["element"] = rng.randrange(case["nel"])
@@ -129,11 +145,34 @@ class C09(Prop):
         e = case["element"]
         layers, enc = self.build_layers(case)
         mag = float_mag(case)
+        if case.get("near"):
+            laser = SRRLaser(layers, config=make_srr_cfg(case))
+            try:
+                v = bool(laser.check_config_valid(laser.config))
+                status = "rejected"
+                if v:
+                    laser.get()
+                    status = "accepted-and-reconstructs"
+            except Exception as ex:
+                status = "accepted-but-raises-" + type(ex).__name__
+            side = "below" if mag < case["mag"] else "above"
+            obs = {"near_integer_magnification": status}
+            return outcome(obs, obs, obs, undetermined=True, hyp=False, features=[f"near-integer-mag-{side}:{status}"])
         if mag != float(case["mag"]):
             raise core.InternalError("generator: magnification is not the intended float integer")
         cfg = make_srr_cfg(case)
         laser = SRRLaser(layers, config=cfg)
-        rep = ctx.driver.call("c09.srr", cfg=srr_cfg_json(case), mag=rat(mag), nel=case["nel"], layers=enc)
+        # the configuration as the implementation states it (public getters); the geometric model is evaluated for it
+        observed = None
+        try:
+            wq = Fraction(float(cfg.warmup)) / Fraction(case["scantime"])
+            so = np.asarray(cfg.subpixel_offsets)
+            if abs(wq - round(wq)) <= Fraction(1, 10**9) and so.ndim == 2 and so.shape[0] >= 1 and int(so[:, 0].min()) >= 0 \
+                    and int(cfg.subpixels_per_pixel) >= 0:
+                observed = {"w": int(round(wq)), "offs": [int(v) for v in so[:, 0]], "p": int(cfg.subpixels_per_pixel)}
+        except Exception:
+            observed = None
+        rep = ctx.driver.call("c09.srr", cfg=srr_cfg_json(case), mag=rat(mag), nel=case["nel"], layers=enc, observed=observed)
 
         # ---- implementation, observed at check_config_valid / get / krisskross and the config's array round trip
         valid = bool(laser.check_config_valid(laser.config))
